@@ -170,6 +170,21 @@ CHECKS["C07"] = dict(
          "with IntOps are C06 matters and only logged.",
     technique="TLA+ spec ConstEval/IntOps: TLC-enumerated expressions with expected outcomes replayed through the const evaluator, the run-time path and the const folder",
     design_ref="3.5, 5/C07", engine="tlc+cvh")
+CHECKS["C03"] = dict(
+    level="model_checking",
+    text="L2 (symbolic): for 14 (quick) / 270 (thorough) libfunc instantiations compiled by the real compiler at check time, the real CASM is turned "
+         "into a TLA+ module in AIR form (memory an arbitrary total function, hints absent, range-check cells < 2^128, inputs in range) and Apalache "
+         "checks that at every ret the outputs satisfy the mathematical post-condition (IntOpsPost) for every memory, i.e. every hint answer; a "
+         "counter-example is replayed on the real VM with scripted hint values and only a reproduced wrong result is a violation. L1 (concrete): "
+         "TLC enumerates single-occurrence fault plans per recorded hint occurrence (flip, +-1, negation, 0, 2^128-1, 2^128, P-1, random, swap, "
+         "q+-1 / r-+d, decomposition of value + P); each plan is injected into the real VM run through a wrapping hint processor and the event log "
+         "is validated by TLC (every injection is an enumerated plan; ok => same result): an altered run must fail in the VM or give the identical "
+         "content-level result.",
+    note="L2 covers loop-free wrappers without calls / data-dependent jumps / builtins other than RangeCheck and Gas; non-linear u256 families are "
+         "skipped on time-out (listed as symbolic_skipped); only Sound (not Exact) is checked; L1 is a finite plan set; allocation, syscall and "
+         "external hints are excluded; opaque result types are diagnostics; the VM's write-once memory and range-check validation are trusted.",
+    technique="Apalache bounded symbolic checking of compiler-generated CASM in AIR form (TLA+), plus TLC-enumerated hint fault plans replayed on cairo-vm with TLC trace validation",
+    design_ref="3.6, 5/C03", engine="apalache+tlc+cvh")
 
 NOT_YET = "check not built yet in this session (see DESIGN.md section 9 build order); no claim is made"
 
